@@ -8,23 +8,25 @@ logger = logging.getLogger(__name__)
 
 order_to_symbol = {0: '.', 1: '-', 1.5: ':', 2: '=', 3: '#', 4: '$'}
 
-def format_node(molecule, current):
+def format_node(molecule, current, name_attr='fragname'):
     """
     Format a node from a `molecule` graph according to
-    the CGsmiles syntax. The attribute fragname has to
+    the CGsmiles syntax. The attribute `name_attr` has to
     be set for the `current` node.
 
     Parameters
     ----------
     molecule: networkx.Graph
     current: collections.abc.Hashable
+    name_attr: collections.abc.Hashable
+        the attribute that stores the name of the node
 
     Returns
     -------
     str
         the formatted string
     """
-    node = "[#{}]".format(molecule.nodes[current]['fragname'])
+    node = "[#{}]".format(molecule.nodes[current][name_attr])
     return node
 
 def format_bonding(bonding):
@@ -53,7 +55,7 @@ def format_bonding(bonding):
         bond_str += "["+str(bonding_descrpt[:-1])+"]"
     return bond_str
 
-def write_graph(molecule, smiles_format=False, default_element='*'):
+def write_graph(molecule, smiles_format=False, default_element='*', name_attr='fragname'):
     """
     Creates a CGsmiles string describing `molecule`.
     `molecule` should be a single connected component.
@@ -64,6 +66,8 @@ def write_graph(molecule, smiles_format=False, default_element='*'):
         The molecule for which a CGsmiles string should be generated.
     smiles_format:
         If the nodes are written using the OpenSmiles standard format.
+    name_attr: collections.abc.Hashable
+        The node attribute used as node name in CGsmiles format.
 
     Returns
     -------
@@ -128,7 +132,7 @@ def write_graph(molecule, smiles_format=False, default_element='*'):
         if smiles_format:
             smiles += format_atom(molecule, current, default_element)
         else:
-            smiles += format_node(molecule, current)
+            smiles += format_node(molecule, current, name_attr)
 
         # we add the bonding descriptors if there are any
         if molecule.nodes[current].get('bonding', False):
@@ -216,7 +220,11 @@ def write_cgsmiles_fragments(fragment_dict, smiles_format=True):
     for fragname, frag_graph in fragment_dict.items():
         fragment_str += f"#{fragname}="
         # format graph depending on resolution
-        fragment_str += write_graph(frag_graph, smiles_format=smiles_format) + ","
+        # the nodes of a fragment are named by their atomname; the
+        # fragname is the name of the fragment itself
+        fragment_str += write_graph(frag_graph,
+                                    smiles_format=smiles_format,
+                                    name_attr='atomname') + ","
     fragment_str = "{" + fragment_str[:-1] + "}"
     return fragment_str
 
